@@ -15,7 +15,8 @@ EXPLANATION = (
     "yield i, j`; (R3) to_dense refuses incomplete matrices, starts from zeros and stores each value at [r,c] and "
     "[c,r]; is_complete compares with n(n-1)/2; (R4) combine guards every add_value by non-membership of (row, col); "
     "concat folds left and refuses different sizes; (R5) the metric is a mean of squares of a-b after the same optional "
-    "transform on both arguments (symmetric, zero on equal inputs, non-negative by construction); (R6) the value stored "
+    "transform on both arguments (symmetric, zero on equal inputs, non-negative by construction); (R8) the growth step of the chunk "
+    "storage is never a caller-supplied 0 (three-valued evaluation of the constructor's path conditions under `capacity == 0`); (R6) the value stored "
     "at (i, j) is the metric of predictions of samples i and j on the same data, and the command loads samples in "
     "argument order; (R7) save/load tables agree including the [:current_index] slices.")
 RULES = {
@@ -30,7 +31,7 @@ RULES = {
 }
 MIN = {"R1": 7, "R2": 2, "R3": 4, "R4": 3, "R5": 2, "R6": 3, "R7": 4, "R8": 1}
 TRUSTED = ["integer division identity N = C*(N//C) + N%C with 0 <= N%C < C", "itertools.islice / deque consume semantics"]
-TECHNIQUE = "symbolic summarisation of straight-line integer code into polynomial normal forms; guard dominance; writer/reader agreement"
+TECHNIQUE = "symbolic summarisation of straight-line integer code into polynomial normal forms; guard dominance; writer/reader agreement; three-valued evaluation of path conditions under a boundary hypothesis"
 LEVEL_TEXT = ("Disjointness, coverage and balance of the chunks are exactly the affine identities discharged here, valid for "
               "every (n, n_chunks); order-independence of assembly follows from duplicate suppression plus the symmetric "
               "write of both triangles, decided on the source.")
